@@ -335,7 +335,7 @@ IMPORT_FILES = ["xlsx/src/import/worksheets.rs", "xlsx/src/import/styles.rs", "x
                 "xlsx/src/import/metadata.rs", "xlsx/src/import/util.rs", "xlsx/src/import/colors.rs"]
 open_("F-C25-import-index-panics", "C25",
       "the xlsx importer indexes vectors and maps with values taken from the file (first child of a required element, relationship ids, localSheetId, style indices): a package without <fonts>/<borders>/<sheets>, with a dangling relationship id or an out-of-range localSheetId panics instead of returning an error",
-      {"seed": 0, "index": 198},
+      {"base": "xlsx/tests/example.xlsx", "part": "styles.xml", "drop_element": "fonts"},
       patterns=[{"check": "panic", "keys": IMPORT_FILES,
                  "cats": ["index out of bounds: the len is # but the index is #", "no entry found for key",
                           "called `Option::unwrap()` on a `None` value"]}])
